@@ -54,6 +54,7 @@ fn exec(st: &mut State, toks: &[&str]) -> String {
         ["!amf.spec", v] => fam_amf::spec(v),
         ["!amf.refdec", v, seed] => fam_amf::refdec(v, seed.parse().unwrap_or(0)),
         ["!amf.trunc", v] => fam_amf::trunc(v),
+        ["!amf.dupnames", v] => fam_amf::dupnames(v),
         ["!amf.marker", m, tail] => fam_amf::marker(m.parse().unwrap_or(0), tail),
         ["!amf.markerat", pre, m, tail] => fam_amf::marker_at(pre, m.parse().unwrap_or(0), tail),
         ["!amf.adv", kind, n, kb] => fam_amf::adversarial(kind, n.parse().unwrap_or(0), kb.parse().unwrap_or(512)),
